@@ -254,6 +254,7 @@ void harness_cancel(void)
 #ifndef C34_J2
 #define C34_J2 C34_J        /* request whose timer fires second */
 #endif
+static int c34_gave_up, c34_retransmitted;
 void harness_timeout(void)
 {
 	int f, j;
@@ -276,14 +277,12 @@ void harness_timeout(void)
 		c34_run_deferred();
 		if (gave_up) {
 			VP_ASSERT(c34_rec[j].calls == 1 && c34_rec[j].result == DNS_ERR_TIMEOUT, "C34: request that used up its transmissions: callback exactly once with DNS_ERR_TIMEOUT");
-			VP_WITNESS("C34 timeout: gave up");
+			c34_gave_up++;
 		} else {
 			struct request *now = j == 0 ? c34_h[0]->current_req : c34_h[1]->current_req;
 			VP_ASSERT(c34_rec[j].calls == 0, "C34: callback although the request is being retransmitted");
 			VP_ASSERT(now == req && req->tx_count == tx + 1, "C34: retransmission must count as a transmission of the same request");
-#if C34_ATTEMPTS > 1
-			VP_WITNESS("C34 timeout: retransmitted");
-#endif
+			c34_retransmitted++;
 		}
 #if C34_NREQ == 2
 		VP_ASSERT(c34_rec[1 - j].calls <= 1, "C34: more than one callback for a request");
@@ -291,6 +290,8 @@ void harness_timeout(void)
 		c34_check_base("timeout");
 	}
 	VP_ASSERT(c34_rec[0].calls <= 1 && c34_rec[1].calls <= 1, "C34: more than one callback for a request");
+	VP_ASSERT(c34_gave_up + c34_retransmitted == C34_FIRES, "harness: every planned timer expiry must have been delivered");
+	VP_WITNESS("C34 timeout: timer expiries handled (give up / retransmit as decided by the counters)");
 	c34_cleanup();
 	VP_ASSERT(c34_rec[0].calls <= 1 && c34_rec[1].calls <= 1, "C34: more than one callback for a request (after the base was freed)");
 }
